@@ -14,8 +14,9 @@ import contracts.builders_eam as BE
 FUNCTIONS = [(SF.FILE, '_writeSetFLDensityFunctionFinnisSinclair'), (SF.FILE, '_writeDensityFunction'), (SF.FILE, 'writeSetFLFinnisSinclair'),
              (TB.FILE, '_writeDensityFunction'), (TB.FILE, 'writeTABEAMFinnisSinclair'), (TB.FILE, '_tabulateFunction'),
              (ET.FILE, 'SetFL_FS_EAMTabulation.write'), (ET.FILE, 'TABEAM_FinnisSinclair_EAMTabulation.write'),
-             (BE.FILE, 'EAM_Potential_Builder_FS._density_to_potential_form_dict')]
-SPECSEQS = [SF.fvals]
+             (BE.FILE, 'EAM_Potential_Builder_FS._density_to_potential_form_dict'), (BE.FILE, 'EAM_Potential_Builder_FS._density_species'),
+             (BE.FILE, 'EAM_Potential_Builder_FS._add_null_density_functions')]
+SPECSEQS = [SF.fvals, BE.fs_species_seq]
 
 def lemmas():
     out = []
@@ -41,6 +42,9 @@ def lemmas():
     return out + tables.routing_obligations('C04', ['setfl_fs', 'DL_POLY_EAM_fs', 'excel_eam_fs'])
 
 MUTANTS = [
+    (BE.FILE, 'EAM_Potential_Builder_FS._add_null_density_functions', "other_dict.setdefault(o, null)", "other_dict[o] = null", 'preserve/1'),
+    (BE.FILE, 'EAM_Potential_Builder_FS._add_null_density_functions', "for o in all_species:", "for o in embed_species:", 'preserve/1'),
+    (BE.FILE, 'EAM_Potential_Builder_FS._density_species', "species_list.append(row.species.to_species)", "species_list.append(row.species.from_species)", 'preserve/0'),
     (BE.FILE, 'EAM_Potential_Builder_FS._density_to_potential_form_dict', "add_to[t_species] = pot_func", "add_to[f_species] = pot_func", 'preserve/0'),
     (BE.FILE, 'EAM_Potential_Builder_FS._density_to_potential_form_dict', "outdict.setdefault(f_species, {})", "outdict.setdefault(t_species, {})", 'preserve/0'),
     (BE.FILE, 'EAM_Potential_Builder_FS._density_to_potential_form_dict', "if t_species in add_to:", "if f_species in add_to:", 'preserve/0'),
